@@ -35,15 +35,16 @@ class ShortReadsPassKmerFinder:
     """
     Wrap a k-mer finder for adapters that can also match when the read lies
     within the adapter ('anywhere' adapters). No k-mer search set describes such
-    an occurrence, so reads shorter than the adapter always need to be aligned.
+    an occurrence, so reads shorter than the adapter (plus the insertions
+    allowed in the read) always need to be aligned.
     """
 
-    def __init__(self, kmer_finder, adapter_length: int):
+    def __init__(self, kmer_finder, bypass_below: int):
         self._kmer_finder = kmer_finder
-        self._adapter_length = adapter_length
+        self._bypass_below = bypass_below
 
     def kmers_present(self, sequence: str):
-        if len(sequence) < self._adapter_length:
+        if len(sequence) < self._bypass_below:
             return True
         return self._kmer_finder.kmers_present(sequence)
 
@@ -668,8 +669,13 @@ class SingleAdapter(Adapter, ABC):
             # Kmers too long.
             return MockKmerFinder()
         if back_adapter and front_adapter:
-            # Both ends of the adapter may be skipped
-            return ShortReadsPassKmerFinder(kmer_finder, len(sequence))
+            # Both ends of the adapter may be skipped. With insertions in the read,
+            # a read lying within the adapter can be up to max_errors longer than
+            # the adapter part it covers.
+            bypass_below = len(sequence)
+            if self.indels:
+                bypass_below += int(len(sequence) * self.max_error_rate)
+            return ShortReadsPassKmerFinder(kmer_finder, bypass_below)
         return kmer_finder
 
     def __repr__(self):
